@@ -118,3 +118,14 @@ package main
 //@   loop 0 modifies m[*]
 //@   loop 0 invariant m != nil && fresh(m) && rangeindex+1 <= len(names)
 //@   loop 0 invariant forall(0, rangeindex+1, func(j int) bool { return has(m, names[j]) })
+
+// ---- C16: a flag value reaches the optional it belongs to.
+
+//@ scope params.go
+
+// Whatever text the command line gives for --start / --end / --since / --step is stored, the
+// empty text included: an empty value is a given value (parseTimeRange / parseStep reject it),
+// not an absent flag (defaults apply only when the flag was never set).
+//@ func (*APIFlag).Set
+//@   capture st = call(f.Val.SetTo, 0)
+//@   ensures[every-given-value-is-stored] st_called && string(st_a0) == val && ret0 == nil
